@@ -158,7 +158,7 @@ func (w *c10World) seed() {
 		}
 		rec := &v1beta1.PodENI{ObjectMeta: metav1.ObjectMeta{Namespace: c10NS, Name: name, Finalizers: []string{types.FinalizerPodENI},
 			CreationTimestamp: metav1.NewTime(w.start.Add(-time.Duration(r.CreatedAgo) * time.Second)),
-			Annotations:       map[string]string{types.PodUID: recUID}, Labels: map[string]string{types.ENIRelatedNodeName: c10NodeName(0)}},
+			Annotations:       map[string]string{types.PodUID: recUID}, Labels: map[string]string{types.ENIRelatedNodeName: c10NodeName(r.Node)}},
 			Spec: v1beta1.PodENISpec{Zone: c10Zone}}
 		strategies := map[string]bool{}
 		for j, a := range r.Allocs {
@@ -180,9 +180,9 @@ func (w *c10World) seed() {
 					VSw: c10VSw, Zone: c10Zone, IPv4: fmt.Sprintf("192.168.100.%d", 10+r.P*4+j), Tags: c10OursTags(), Slot: j % 2,
 					Created: w.start.Add(-time.Hour).UTC().Format(c10Layout)}
 				if r.Phase == v1beta1.ENIPhaseBind || r.Phase == v1beta1.ENIPhaseDetaching {
-					ce.Status, ce.Instance = aliyunClient.ENIStatusInUse, c10Instance(0)
-					if w.s.Trunk {
-						ce.Type, ce.Trunk = aliyunClient.ENITypeMember, c10TrunkID(0)
+					ce.Status, ce.Instance = aliyunClient.ENIStatusInUse, c10Instance(r.Node)
+					if w.nodeTrunkClass(r.Node) {
+						ce.Type, ce.Trunk = aliyunClient.ENITypeMember, c10TrunkID(r.Node)
 					}
 				}
 				w.cloud.seed(ce)
@@ -200,9 +200,9 @@ func (w *c10World) seed() {
 		}
 		rec.Status.Phase = v1beta1.Phase(r.Phase)
 		if r.Phase == v1beta1.ENIPhaseBind || r.Phase == v1beta1.ENIPhaseDetaching {
-			rec.Status.InstanceID = c10Instance(0)
-			if w.s.Trunk {
-				rec.Status.TrunkENIID = c10TrunkID(0)
+			rec.Status.InstanceID = c10Instance(r.Node)
+			if w.nodeTrunkClass(r.Node) {
+				rec.Status.TrunkENIID = c10TrunkID(r.Node)
 			}
 		}
 		if r.SeenAgo >= 0 {
@@ -233,7 +233,13 @@ func (w *c10World) seed() {
 		}
 		w.pods[r.P].inc = 1
 		if r.Pod != "absent" {
-			p := w.newPod(r.P, 0, uid, w.s.Pods[r.P].Nets)
+			w.pods[r.P].node = r.Node
+			p := w.newPod(r.P, r.Node, uid, w.s.Pods[r.P].Nets)
+			if !w.managed(p) {
+				w.c.Label("rec:pod-unmanaged")
+			} else if !types.PodUseENI(p) && !w.s.CRD {
+				w.c.Label("rec:pod-unannotated-on-exclusive-node")
+			}
 			if r.Pod == "exited" {
 				p.Status.Phase = corev1.PodSucceeded
 			}
@@ -307,7 +313,7 @@ type c10RawOp struct {
 // cloud fault bits that can matter for a step of the given kind
 var c10CFRelevant = map[string][]uint16{
 	"rpod":  {c10CFCreate0, c10CFCreate1, c10CFDelete0, c10CFDelete1, c10CFVSwitch},
-	"reni":  {c10CFAttach0, c10CFAttach1, c10CFDetach0, c10CFDetach1, c10CFDelete0, c10CFDelete0, c10CFDelete1, c10CFDelete1, c10CFDescribe},
+	"reni":  {c10CFAttach0, c10CFAttach0, c10CFAttach1, c10CFAttach1, c10CFDetach0, c10CFDetach1, c10CFDelete0, c10CFDelete0, c10CFDelete1, c10CFDelete1, c10CFDescribe},
 	"gccr":  {c10CFDescribe},
 	"gcsec": {c10CFDescribe, c10CFDelete0, c10CFDelete1},
 	"gcmem": {c10CFDescribe, c10CFDetach0, c10CFDetach1},
@@ -385,7 +391,7 @@ func c10GenLoop(t *rapid.T) c10Scenario {
 	if pct > 0 && rapid.IntRange(0, 1).Draw(t, "outage?") == 1 {
 		// one kind of cloud call fails for one interface slot during a window of the history
 		o := &c10Outage{CF: rapid.SampledFrom([]uint16{c10CFDelete0, c10CFDelete1, c10CFDelete0, c10CFDelete1, c10CFDetach0, c10CFDetach1,
-			c10CFAttach0, c10CFAttach1, c10CFCreate0, c10CFCreate1}).Draw(t, "outagecf")}
+			c10CFAttach0, c10CFAttach1, c10CFAttach0, c10CFAttach1, c10CFCreate0, c10CFCreate1}).Draw(t, "outagecf")}
 		o.From = rapid.IntRange(0, len(raw)-1).Draw(t, "outagefrom")
 		o.To = o.From + rapid.IntRange(1, 15).Draw(t, "outagelen")
 		s.Outage = o
@@ -492,6 +498,15 @@ func c11GenRec(t *rapid.T, p, npop int) (c10SeedRec, c10PodSpec) {
 	}
 	na := rapid.IntRange(1, 3).Draw(t, "nallocs")
 	ps := c10PodSpec{}
+	// a quarter of the pods carry no pod-eni annotation: they are served on the exclusive-ENI node (node-2)
+	// or in CRD mode only
+	if rapid.IntRange(0, 3).Draw(t, "noanno") == 0 {
+		// (reachable states only: a record exists for such a pod because its node is the exclusive-ENI one)
+		ps.NoAnno = true
+		r.Node = 2
+	} else {
+		r.Node = rapid.SampledFrom([]int{0, 0, 1, 2}).Draw(t, "node")
+	}
 	var ttls []time.Duration
 	for j := 0; j < na; j++ {
 		a := c11GenAlloc(t, npop)
